@@ -63,8 +63,10 @@ def select_members(prop: str, tier: str, seed: int):
         # several times (a pairwise covering of context x kind x trivia).  Thorough: the full product.
         mem = family.family(["none"] + rot, pick=pick)
     else:
-        # Thorough: the full product at the quick length bound, and the quick selection one character deeper
-        deep = {m["id"] for m in family.family(["none"] + rot, pick=pick)}
+        # Thorough: the full product at the quick length bound; one character deeper for every (context, kind) pair
+        # without trivia and for three trivia configurations in four contexts (the full product one deeper would take
+        # about an hour per check)
+        deep = {m["id"] for m in family.family(["none"] + rot, pick=pick) if m["triv"] == "none" or (m["ctx"] in ("top", "star", "alt1", "m@") and m["triv"] in ("both", "bothn1", "cmb"))}
         mem = family.family(list(family.TRIVIA))
         for m in mem:
             m["shallow"] = m["id"] not in deep
